@@ -30,7 +30,7 @@ def random_schema(rng, idx):
     def prim_type(allow_dict=True):
         p = rng.choice(PRIMS)
         if allow_dict and p in ('string', 'bytes') and rng.chance(1, 3):
-            return f'{p} dict(D{rng.below(3)})'
+            return f'{p} dict(D{p[0].upper()}{rng.below(3)})'      # one dictionary per primitive type (finding C10-dict-shared-by-string-and-bytes)
         return p
 
     def field_type(owner, in_oneof=False):
@@ -43,7 +43,7 @@ def random_schema(rng, idx):
         if k == 5:
             e = rng.choice(PRIMS + structs + oneofs) if rng.chance(1, 2) else rng.choice(PRIMS)
             if e in ('string', 'bytes') and rng.chance(1, 3):
-                return f'[]{e} dict(D{rng.below(3)})', False
+                return f'[]{e} dict(D{e[0].upper()}{rng.below(3)})', False
             return f'[]{e}', False
         if k == 6 and maps:
             return rng.choice(maps), False
@@ -67,7 +67,7 @@ def random_schema(rng, idx):
             if s in dict_structs and (is_struct or t.startswith('O') or t.startswith('M') or t.startswith('[]S') or t.startswith('[]O')):
                 # a dictionary struct on a recursion cycle does not compile (finding
                 # C10-dict-struct-optional-recursion): keep dictionary structs leaf-like
-                t, is_struct = rng.choice(['uint64', 'string', '[]int64', 'float64', 'bytes dict(D0)']), False
+                t, is_struct = rng.choice(['uint64', 'string', '[]int64', 'float64', 'bytes dict(DB0)']), False
             opt = ''
             if is_struct:
                 tgt = int(t[1:])
@@ -119,6 +119,8 @@ def main():
     schemas.append(('probe-struct-dict-name', 'package t.a\nstruct A root {\n X B\n}\nstruct B dict(D) {\n F uint64\n}\n'))
     schemas.append(('probe-dict-struct-optional-recursion', 'package t.c\nstruct A root {\n X B\n}\nstruct B dict(B) {\n F uint64\n N B optional\n}\n'))
     schemas.append(('probe-dict-struct-oneof-recursion', 'package t.k\nstruct A root {\n X B\n}\nstruct B dict(B) {\n F uint64\n O O\n}\noneof O {\n P bool\n Q B\n}\n'))
+    schemas.append(('probe-optional-dict-struct-field', 'package t.o\nstruct A root {\n X B optional\n Y uint64\n}\nstruct B dict(B) {\n F uint64\n}\n'))
+    schemas.append(('probe-dict-shared-by-string-and-bytes', 'package t.m\nstruct A root {\n X string dict(D)\n Y bytes dict(D)\n}\n'))
     schemas.append(('probe-shared-struct-dict', 'package t.h\nstruct A root {\n X B\n Y C\n}\nstruct B dict(B) {\n F uint64\n}\nstruct C dict(B) {\n F uint64\n}\n'))
     known = {k['id']: k for k in vlib.load_known() if k['property'] == PROP and k.get('status') == 'known'}
     nhist = 0
@@ -178,7 +180,7 @@ def main():
             m = parse_model_line(ml)
             before = len(verdict.violations)
             sub = collections.Counter()
-            c2 = dict(c, schema_name=name)
+            c2 = dict(c, schema_name=name, schema_text=text)
             kn = {kid: dict(k2, matcher=dict(k2['matcher'], scenario=c2['id'])) if k2.get('matcher', {}).get('schema') == name and k2['matcher'].get('kind') else k2
                   for kid, k2 in known.items()}
             c2['scenario'] = c2['id']
